@@ -36,17 +36,17 @@ theorem Proc.Fin.init (i : Nat) : ({ idx := i } : Proc).Fin :=
 
 theorem Proc.Sound.init (i : Nat) : ({ idx := i } : Proc).Sound := by simp [Proc.Sound]
 
-theorem Proc.Fin.cleanup {p : Proc} (h : p.Fin) : p.cleanup.Fin := by
+theorem Proc.Fin.cleanup {p : Proc} (cfg : Cfg) (h : p.Fin) : (p.cleanup cfg).Fin := by
   obtain ⟨h1, h2, h3, h4, h5⟩ := h
-  unfold Proc.cleanup
+  unfold Proc.cleanup Proc.cleanupX
   cases hs : p.started <;> cases ha : p.armed <;> simp_all
   all_goals (constructor <;> simp_all)
 
-theorem Proc.Fin.kill {p : Proc} (h : p.Fin) (hs : p.started = true) : p.kill.Fin := by
-  have hc := h.cleanup
+theorem Proc.Fin.kill {p : Proc} (cfg : Cfg) (h : p.Fin) (hs : p.started = true) : (p.kill cfg).Fin := by
+  have hc := h.cleanup cfg
   obtain ⟨h1, h2, h3, h4, h5⟩ := hc
-  have hst : p.cleanup.started = true := by unfold Proc.cleanup; split <;> simp [hs]
-  have har : p.cleanup.armed = false := by unfold Proc.cleanup; split <;> simp_all
+  have hst : (p.cleanup cfg).started = true := by unfold Proc.cleanup Proc.cleanupX; split <;> simp [hs]
+  have har : (p.cleanup cfg).armed = false := by unfold Proc.cleanup Proc.cleanupX; split <;> simp_all
   exact ⟨h1, h2, h3, fun _ => ⟨hst, har⟩, h5⟩
 
 theorem Proc.Fin.start {p : Proc} (h : p.Fin) (hc : p.crashed = false) : p.start.Fin := by
@@ -74,16 +74,96 @@ theorem start_alive {p : Proc} (hf : p.Fin) (hs : p.Sound) (hc : p.crashed = fal
     · rfl
   · simp [hc]
 
-theorem Proc.Sound.kill (p : Proc) : p.kill.Sound := by
+theorem Proc.Sound.kill (cfg : Cfg) (p : Proc) : (p.kill cfg).Sound := by
   intro _ _; rfl
 
-theorem kill_crashed (p : Proc) : p.kill.crashed = true := rfl
-theorem kill_idx (p : Proc) : p.kill.idx = p.idx := by
-  unfold Proc.kill Proc.cleanup; split <;> rfl
-theorem kill_queue (p : Proc) : p.kill.queue = p.queue := by
-  unfold Proc.kill Proc.cleanup; split <;> rfl
-theorem kill_nreq (p : Proc) : p.kill.nreq = p.nreq := by
-  unfold Proc.kill Proc.cleanup; split <;> rfl
+theorem kill_crashed (cfg : Cfg) (p : Proc) : (p.kill cfg).crashed = true := rfl
+theorem kill_idx (cfg : Cfg) (p : Proc) : (p.kill cfg).idx = p.idx := by
+  unfold Proc.kill Proc.cleanup Proc.cleanupX; split <;> rfl
+theorem kill_queue (cfg : Cfg) (p : Proc) : (p.kill cfg).queue = p.queue := by
+  unfold Proc.kill Proc.cleanup Proc.cleanupX; split <;> rfl
+theorem kill_nreq (cfg : Cfg) (p : Proc) : (p.kill cfg).nreq = p.nreq := by
+  unfold Proc.kill Proc.cleanup Proc.cleanupX; split <;> rfl
+
+theorem Proc.Fin.writeFailed {p : Proc} (h : p.Fin) : p.writeFailed.Fin := by
+  obtain ⟨h1, h2, h3, h4, h5⟩ := h
+  exact ⟨h1, h2, h3, h4, h5⟩
+
+/-! ### the close loop of `_cleanup_process` -/
+
+/-- every class a `close()` raises is named (through its bases) in the except clause -/
+def RaisesCaught (clause : List String) (raises : CloseRaises) : Prop :=
+  ∀ s cls, raises s = some cls → caught cls clause = true
+
+/-- try/except INSIDE the loop: whatever subset of the streams raises a caught class, every listed
+stream is closed and nothing escapes -/
+theorem closeEach_spec (clause : List String) (raises : CloseRaises) (h : RaisesCaught clause raises) :
+    ∀ (streams fds : List Stream),
+      closeEach clause raises streams fds = (fds.filter fun s => !streams.contains s, none) := by
+  intro streams
+  induction streams with
+  | nil =>
+    intro fds
+    have : fds.filter (fun _ => true) = fds := List.filter_eq_self.mpr (by simp)
+    simp [closeEach, this]
+  | cons s rest ih =>
+    intro fds
+    have key : (fds.filter (· != s)).filter (fun x => !rest.contains x)
+        = fds.filter fun x => !(s :: rest).contains x := by
+      rw [List.filter_filter]
+      congr 1
+      funext x
+      by_cases hx : x = s <;> simp [hx]
+    unfold closeEach
+    cases hr : raises s with
+    | none => simp only []; rw [ih, key]
+    | some cls => simp only [h s cls hr, if_true]; rw [ih, key]
+
+/-- ONE try/except around the loop: the streams after the first one that raises stay open -/
+theorem closeUntilRaise_noEscape (clause : List String) (raises : CloseRaises) (h : RaisesCaught clause raises) :
+    ∀ (streams fds : List Stream), (closeUntilRaise clause raises streams fds).2 = none := by
+  intro streams
+  induction streams with
+  | nil => intro fds; rfl
+  | cons s rest ih =>
+    intro fds
+    unfold closeUntilRaise
+    cases hr : raises s with
+    | none => exact ih _
+    | some cls => simp [h s cls hr]
+
+theorem closeLoop_noEscape (cfg : Cfg) (raises : CloseRaises) (h : RaisesCaught cfg.closeCatch raises)
+    (fds : List Stream) : (closeLoop cfg raises fds).2 = none := by
+  unfold closeLoop
+  split
+  · rw [closeEach_spec _ _ h]
+  · exact closeUntilRaise_noEscape _ _ h _ _
+
+theorem caught_of_mem {cls c : String} {clause : List String} (h : c ∈ mro cls)
+    (hc : clause.contains c = true) : caught cls clause = true := by
+  unfold caught
+  exact List.any_eq_true.mpr ⟨c, h, hc⟩
+
+/-- the except clause of the close loop names (a base of) `BrokenPipeError` -/
+def CloseContained (cfg : Cfg) : Prop := caught "BrokenPipeError" cfg.closeCatch = true
+
+theorem closeRaises_caught (cfg : Cfg) (h : CloseContained cfg) (p : Proc) :
+    RaisesCaught cfg.closeCatch p.closeRaises := by
+  intro s cls hs
+  unfold Proc.closeRaises at hs
+  split at hs
+  · cases hs; exact h
+  · cases hs
+
+theorem killOut_internal (cfg : Cfg) (h : CloseContained cfg) (p : Proc) :
+    p.killOut cfg = .raised "InternalError" := by
+  have esc : (p.cleanupX cfg).2 = none := by
+    unfold Proc.cleanupX
+    split
+    · exact closeLoop_noEscape cfg _ (closeRaises_caught cfg h p) p.fds
+    · rfl
+  unfold Proc.killOut
+  rw [esc]
 
 theorem Proc.Fin.die {p : Proc} (h : p.Fin) : p.die.Fin := by
   obtain ⟨h1, h2, h3, h4, h5⟩ := h
@@ -109,12 +189,13 @@ structure SendSpec (cfg : Cfg) (plan : Plan) (p : Proc) (res : Proc × Out) : Pr
   nreq_mono : p.nreq ≤ res.1.nreq
 
 theorem loadFails_spec (cfg : Cfg) (p : Proc) (cls : String) (_hf : p.Fin) (_hst : p.started = true)
-    (hc : caught cls cfg.loadCatch = true) :
-    loadFails cfg p cls = (p.kill, .raised "InternalError") := by
-  simp [loadFails, hc]
+    (hc : caught cls cfg.loadCatch = true) (hcc : CloseContained cfg) :
+    loadFails cfg p cls = (p.kill cfg, .raised "InternalError") := by
+  simp [loadFails, hc, killOut_internal cfg hcc]
 
 theorem send_spec (cfg : Cfg) (plan : Plan) (p : Proc) (r : Req)
-    (hf : p.Fin) (hs : p.Sound) (hc : Contained cfg (plan p.idx p.nreq) = true) :
+    (hf : p.Fin) (hs : p.Sound) (hc : Contained cfg (plan p.idx p.nreq) = true)
+    (hcc : CloseContained cfg) :
     SendSpec cfg plan p (send cfg plan p r) := by
   unfold send
   by_cases hcr : p.crashed = true
@@ -144,33 +225,38 @@ theorem send_spec (cfg : Cfg) (plan : Plan) (p : Proc) (r : Req)
       · simp [Proc.received, hnr]
     | beforeSend =>
       simp only [Contained] at hc
-      simp only [hc, if_true]
-      refine ⟨hfs.die.kill hst, Proc.Sound.kill _, by simp [kill_idx, Proc.die, hidx],
-        by simp [kill_queue, Proc.die, hq], by simp [kill_crashed], by simp [hcr'],
-        by simp [kill_crashed, hfa, Fault.isDeath], by simp [kill_nreq, Proc.die, hnr]⟩
+      simp only [hc, if_true, killOut_internal cfg hcc]
+      refine ⟨hfs.die.writeFailed.kill cfg hst, Proc.Sound.kill _ _,
+        by simp [kill_idx, Proc.die, Proc.writeFailed, hidx],
+        by simp [kill_queue, Proc.die, Proc.writeFailed, hq], by simp [kill_crashed], by simp [hcr'],
+        by simp [kill_crashed, hfa, Fault.isDeath], by simp [kill_nreq, Proc.die, Proc.writeFailed, hnr]⟩
     | afterSend =>
       simp only [Contained] at hc
-      rw [loadFails_spec cfg _ _ (hfs.received r).die hst hc]
-      refine ⟨((hfs.received r).die).kill hst, Proc.Sound.kill _,
+      rw [loadFails_spec cfg _ _ (hfs.received r).die hst hc hcc]
+      refine ⟨((hfs.received r).die).kill cfg hst, Proc.Sound.kill _ _,
         by simp [kill_idx, Proc.die, Proc.received, hidx],
         by simp [kill_queue, Proc.die, Proc.received, hq], by simp [kill_crashed], by simp [hcr'],
         by simp [kill_crashed, hfa, Fault.isDeath], by simp [kill_nreq, Proc.die, Proc.received, hnr]⟩
     | raisesFatal =>
       simp only [Contained] at hc
-      rw [loadFails_spec cfg _ _ (hfs.received r).die hst hc]
-      refine ⟨((hfs.received r).die).kill hst, Proc.Sound.kill _,
+      rw [loadFails_spec cfg _ _ (hfs.received r).die hst hc hcc]
+      refine ⟨((hfs.received r).die).kill cfg hst, Proc.Sound.kill _ _,
         by simp [kill_idx, Proc.die, Proc.received, hidx],
         by simp [kill_queue, Proc.die, Proc.received, hq], by simp [kill_crashed], by simp [hcr'],
         by simp [kill_crashed, hfa, Fault.isDeath], by simp [kill_nreq, Proc.die, Proc.received, hnr]⟩
     | trunc cls =>
       simp only [Contained] at hc
       show SendSpec cfg plan p (loadFails cfg (p.start.received r).die cls)
-      rw [loadFails_spec cfg _ _ (hfs.received r).die hst hc]
-      refine ⟨((hfs.received r).die).kill hst, Proc.Sound.kill _,
+      rw [loadFails_spec cfg _ _ (hfs.received r).die hst hc hcc]
+      refine ⟨((hfs.received r).die).kill cfg hst, Proc.Sound.kill _ _,
         by simp [kill_idx, Proc.die, Proc.received, hidx],
         by simp [kill_queue, Proc.die, Proc.received, hq], by simp [kill_crashed], by simp [hcr'],
         by simp [kill_crashed, hfa, Fault.isDeath], by simp [kill_nreq, Proc.die, Proc.received, hnr]⟩
 
+
+theorem Proc.Fin.withFds {p : Proc} (h : p.Fin) (f : List Stream) : ({ p with fds := f } : Proc).Fin := by
+  obtain ⟨h1, h2, h3, h4, h5⟩ := h
+  exact ⟨h1, h2, h3, h4, h5⟩
 
 theorem Proc.Fin.withQueue {p : Proc} (h : p.Fin) (q : List Nat) : ({ p with queue := q } : Proc).Fin := by
   obtain ⟨h1, h2, h3, h4, h5⟩ := h
@@ -188,7 +274,7 @@ structure DrainSpec (p : Proc) (res : Proc × Out) : Prop where
   ok_queue : res.2 = .ok → res.1.queue = []
   nreq_mono : p.nreq ≤ res.1.nreq
 
-theorem drain_spec (cfg : Cfg) (plan : Plan) (hpc : PlanContained cfg plan) :
+theorem drain_spec (cfg : Cfg) (plan : Plan) (hpc : PlanContained cfg plan) (hcc : CloseContained cfg) :
     ∀ (q : List Nat) (p : Proc), p.Fin → p.Sound → DrainSpec p (drain cfg plan p q) := by
   intro q
   induction q with
@@ -199,7 +285,7 @@ theorem drain_spec (cfg : Cfg) (plan : Plan) (hpc : PlanContained cfg plan) :
   | cons d rest ih =>
     intro p hf hs
     have sp := send_spec cfg plan { p with queue := rest } (.delete d) (hf.withQueue rest)
-      (hs.withQueue rest) (hpc _ _)
+      (hs.withQueue rest) (hpc _ _) hcc
     unfold drain
     rcases hres : send cfg plan { p with queue := rest } (.delete d) with ⟨p', o⟩
     rw [hres] at sp
@@ -248,10 +334,11 @@ structure RunSpec (p : Proc) (res : Proc × Out) : Prop where
   crashed_stays : p.crashed = true → res.1.crashed = true
   ok_queue : res.2 = .ok → res.1.queue = []
 
-theorem run_spec (cfg : Cfg) (plan : Plan) (hpc : PlanContained cfg plan) (p : Proc) (s : Nat)
+theorem run_spec (cfg : Cfg) (plan : Plan) (hpc : PlanContained cfg plan) (hcc : CloseContained cfg)
+    (p : Proc) (s : Nat)
     (hf : p.Fin) (hs : p.Sound) : RunSpec p (run cfg plan p s) := by
   unfold run
-  have d := drain_spec cfg plan hpc p.queue p hf hs
+  have d := drain_spec cfg plan hpc hcc p.queue p hf hs
   rcases hres : drain cfg plan p p.queue with ⟨p', o⟩
   rw [hres] at d
   obtain ⟨f1, s1, i1, ci, co, oq, nm⟩ := d
@@ -259,7 +346,7 @@ theorem run_spec (cfg : Cfg) (plan : Plan) (hpc : PlanContained cfg plan) (p : P
   cases o with
   | ok =>
     simp only []
-    have sp := send_spec cfg plan p' (.call s) f1 s1 (hpc _ _)
+    have sp := send_spec cfg plan p' (.call s) f1 s1 (hpc _ _) hcc
     obtain ⟨f2, s2, i2, q2, ii, cn, di, nm2⟩ := sp
     refine ⟨f2, s2, by rw [i2, i1], ii, ?_, fun _ => by rw [q2]; exact oq rfl⟩
     intro h
@@ -291,16 +378,16 @@ theorem send_fin (cfg : Cfg) (plan : Plan) (p : Proc) (r : Req) (hf : p.Fin) :
     simp only [hcr', Bool.false_eq_true, if_false]
     split
     · split
-      · exact hfs.die.kill hst
-      · exact hfs.die
+      · exact hfs.die.writeFailed.kill cfg hst
+      · exact hfs.die.writeFailed
     · unfold loadFails; split
-      · exact ((hfs.received r).die).kill hst
+      · exact ((hfs.received r).die).kill cfg hst
       · exact (hfs.received r).die
     · unfold loadFails; split
-      · exact ((hfs.received r).die).kill hst
+      · exact ((hfs.received r).die).kill cfg hst
       · exact (hfs.received r).die
     · unfold loadFails; split
-      · exact ((hfs.received r).die).kill hst
+      · exact ((hfs.received r).die).kill cfg hst
       · exact (hfs.received r).die
     · exact (hfs.received r).withChild _
     · exact (hfs.received r).withChild _
@@ -436,7 +523,7 @@ theorem step_allFin (cfg : Cfg) (plan : Plan) (e : Env) (op : Op) (he : e.AllFin
     intro x hx
     simp only [step, List.mem_map] at hx
     obtain ⟨q, hq, rfl⟩ := hx
-    exact (he q hq).cleanup
+    exact ((he q hq).cleanup cfg).withFds []
 
 theorem exec_allFin (cfg : Cfg) (plan : Plan) :
     ∀ (ops : List Op) (e : Env), e.AllFin → (exec cfg plan e ops).1.AllFin := by
@@ -447,5 +534,213 @@ theorem exec_allFin (cfg : Cfg) (plan : Plan) :
     intro e he
     simp only [exec]
     exact ih _ (step_allFin cfg plan e op he)
+
+/-! ### no leaked pipes: the descriptor bookkeeping, for every plan and trace -/
+
+/-- the close loop of `_cleanup_process` as the (unchanged) source has it: one try/except per
+stream, all three pipe objects listed, the clause names a base of `BrokenPipeError` -/
+structure GoodClose (cfg : Cfg) : Prop where
+  perStream : cfg.closePerStream = true
+  allListed : ∀ s : Stream, cfg.closeStreams.contains s = true
+  catches : CloseContained cfg
+
+theorem closeLoop_good (cfg : Cfg) (hg : GoodClose cfg) (raises : CloseRaises)
+    (h : RaisesCaught cfg.closeCatch raises) (fds : List Stream) :
+    closeLoop cfg raises fds = ([], none) := by
+  unfold closeLoop
+  rw [if_pos hg.perStream, closeEach_spec _ _ h]
+  congr 1
+  apply List.filter_eq_nil_iff.mpr
+  intro s _
+  have := hg.allListed s
+  simp only [List.contains_iff_mem] at this
+  simp [this]
+
+/-- once the finalizer of a helper has run (and before the helper is started) the parent holds no
+descriptor of a pipe to it -/
+def Proc.NoLeak (p : Proc) : Prop := p.armed = false → p.fds = []
+
+theorem Proc.NoLeak.init (i : Nat) : ({ idx := i } : Proc).NoLeak := fun _ => rfl
+
+theorem cleanup_fds (cfg : Cfg) (hg : GoodClose cfg) (p : Proc) (ha : p.armed = true) :
+    (p.cleanup cfg).fds = [] := by
+  unfold Proc.cleanup Proc.cleanupX
+  rw [if_pos ha]
+  simp only [closeLoop_good cfg hg _ (closeRaises_caught cfg hg.catches p)]
+
+theorem Proc.NoLeak.cleanup {p : Proc} (cfg : Cfg) (hg : GoodClose cfg) (h : p.NoLeak) :
+    (p.cleanup cfg).NoLeak := by
+  intro _
+  cases ha : p.armed
+  · have : p.cleanup cfg = p := by unfold Proc.cleanup Proc.cleanupX; simp [ha]
+    rw [this]; exact h ha
+  · exact cleanup_fds cfg hg p ha
+
+theorem Proc.NoLeak.kill {p : Proc} (cfg : Cfg) (hg : GoodClose cfg) (h : p.NoLeak) :
+    (p.kill cfg).NoLeak := h.cleanup cfg hg
+
+theorem Proc.NoLeak.start {p : Proc} (h : p.NoLeak) : p.start.NoLeak := by
+  unfold Proc.start
+  split
+  · exact h
+  · intro ha; simp at ha
+
+theorem Proc.NoLeak.die {p : Proc} (h : p.NoLeak) : p.die.NoLeak := h
+theorem Proc.NoLeak.writeFailed {p : Proc} (h : p.NoLeak) : p.writeFailed.NoLeak := h
+theorem Proc.NoLeak.received {p : Proc} (h : p.NoLeak) (r : Req) : (p.received r).NoLeak := h
+theorem Proc.NoLeak.withChild {p : Proc} (h : p.NoLeak) (c : List Nat) :
+    ({ p with child := c } : Proc).NoLeak := h
+theorem Proc.NoLeak.withQueue {p : Proc} (h : p.NoLeak) (q : List Nat) :
+    ({ p with queue := q } : Proc).NoLeak := h
+
+theorem send_noLeak (cfg : Cfg) (hg : GoodClose cfg) (plan : Plan) (p : Proc) (r : Req) (hn : p.NoLeak) :
+    (send cfg plan p r).1.NoLeak := by
+  unfold send
+  by_cases hcr : p.crashed = true
+  · simp only [hcr, if_true]; exact hn
+  · have hcr' : p.crashed = false := by simpa using hcr
+    have hns := hn.start
+    simp only [hcr', Bool.false_eq_true, if_false]
+    split
+    · split
+      · exact hns.die.writeFailed.kill cfg hg
+      · exact hns.die.writeFailed
+    · unfold loadFails; split
+      · exact ((hns.received r).die).kill cfg hg
+      · exact (hns.received r).die
+    · unfold loadFails; split
+      · exact ((hns.received r).die).kill cfg hg
+      · exact (hns.received r).die
+    · unfold loadFails; split
+      · exact ((hns.received r).die).kill cfg hg
+      · exact (hns.received r).die
+    · exact (hns.received r).withChild _
+    · exact (hns.received r).withChild _
+
+theorem drain_noLeak (cfg : Cfg) (hg : GoodClose cfg) (plan : Plan) :
+    ∀ (q : List Nat) (p : Proc), p.NoLeak → (drain cfg plan p q).1.NoLeak := by
+  intro q
+  induction q with
+  | nil => intro p hn; exact hn.withQueue []
+  | cons d rest ih =>
+    intro p hn
+    have := send_noLeak cfg hg plan { p with queue := rest } (.delete d) (hn.withQueue rest)
+    unfold drain
+    rcases hres : send cfg plan { p with queue := rest } (.delete d) with ⟨p', o⟩
+    rw [hres] at this
+    cases o with
+    | ok => exact ih p' this
+    | raised c => exact this
+
+theorem run_noLeak (cfg : Cfg) (hg : GoodClose cfg) (plan : Plan) (p : Proc) (s : Nat) (hn : p.NoLeak) :
+    (run cfg plan p s).1.NoLeak := by
+  unfold run
+  have := drain_noLeak cfg hg plan p.queue p hn
+  rcases hres : drain cfg plan p p.queue with ⟨p', o⟩
+  rw [hres] at this
+  cases o with
+  | ok => exact send_noLeak cfg hg plan p' _ this
+  | raised c => exact this
+
+def Env.AllNoLeak (e : Env) : Prop := ∀ p ∈ e.procs, p.NoLeak
+
+theorem setProc_allNoLeak {e : Env} {p : Proc} (he : e.AllNoLeak) (hp : p.NoLeak) :
+    (e.setProc p).AllNoLeak := by
+  intro x hx
+  rcases mem_setProc hx with rfl | h
+  · exact hp
+  · exact he x h
+
+theorem getSub_allNoLeak (cfg : Cfg) (hg : GoodClose cfg) (plan : Plan) (e : Env) (he : e.AllNoLeak) :
+    (getSub cfg plan e).1.AllNoLeak := by
+  have fresh : (getSub.fresh cfg plan e).1.AllNoLeak := by
+    unfold getSub.fresh
+    have := send_noLeak cfg hg plan { idx := e.procs.length } .info (Proc.NoLeak.init _)
+    rcases hres : send cfg plan { idx := e.procs.length } .info with ⟨np, o⟩
+    rw [hres] at this
+    have key : ({ e with procs := np :: e.procs } : Env).AllNoLeak := by
+      intro x hx
+      simp only [List.mem_cons] at hx
+      rcases hx with rfl | hx
+      · exact this
+      · exact he x hx
+    cases o with
+    | ok => exact key
+    | raised c => simp only []; split <;> exact key
+  unfold getSub
+  split
+  · split
+    · exact fresh
+    · exact he
+  · exact fresh
+
+theorem step_allNoLeak (cfg : Cfg) (hg : GoodClose cfg) (plan : Plan) (e : Env) (op : Op)
+    (he : e.AllNoLeak) : (step cfg plan e op).1.AllNoLeak := by
+  cases op with
+  | newState s =>
+    unfold step
+    have := getSub_allNoLeak cfg hg plan e he
+    rcases hres : getSub cfg plan e with ⟨e', o⟩
+    rw [hres] at this
+    cases o with
+    | ok =>
+      simp only []
+      split
+      · exact this
+      · exact this
+    | raised c => exact this
+  | sysPath =>
+    unfold step
+    have := getSub_allNoLeak cfg hg plan e he
+    rcases hres : getSub cfg plan e with ⟨e', o⟩
+    rw [hres] at this
+    cases o with
+    | ok =>
+      simp only []
+      split
+      · rename_i p rest hp
+        intro x hx
+        simp only [List.mem_cons] at hx
+        have hpf : p.NoLeak := this p (by rw [hp]; exact List.mem_cons_self)
+        rcases hx with rfl | hx
+        · exact send_noLeak cfg hg plan p .sysPath hpf
+        · exact this x (by rw [hp]; exact List.mem_cons_of_mem _ hx)
+      · exact this
+    | raised c => exact this
+  | call s =>
+    simp only [step]
+    split
+    · exact he
+    · split
+      · exact he
+      · rename_i p hp
+        have hpm : p ∈ e.procs := getProc_mem hp
+        exact setProc_allNoLeak (e := { e with iss := _ }) he (run_noLeak cfg hg plan p s (he p hpm))
+  | drop s =>
+    simp only [step]
+    split
+    · exact he
+    · split
+      · exact he
+      · rename_i p hp
+        have hpm : p ∈ e.procs := getProc_mem hp
+        split
+        · exact setProc_allNoLeak (e := { e with iss := _ }) he ((he p hpm).withQueue _)
+        · exact he
+  | dropEnv =>
+    intro x hx
+    simp only [step, List.mem_map] at hx
+    obtain ⟨q, _, rfl⟩ := hx
+    intro _; rfl
+
+theorem exec_allNoLeak (cfg : Cfg) (hg : GoodClose cfg) (plan : Plan) :
+    ∀ (ops : List Op) (e : Env), e.AllNoLeak → (exec cfg plan e ops).1.AllNoLeak := by
+  intro ops
+  induction ops with
+  | nil => intro e he; exact he
+  | cons op ops ih =>
+    intro e he
+    simp only [exec]
+    exact ih _ (step_allNoLeak cfg hg plan e op he)
 
 end JediModel.Helper
